@@ -294,8 +294,13 @@ where
                     } else {
                         arena.nil()
                     },
-                    self.pretty_expr_(binds.last().unwrap().span().end(), body)
-                        .group()
+                    match body.value {
+                        Expr::LetBindings(..) if is_recursive => {
+                            self.pretty_expr_(binds.last().unwrap().span().end(), body)
+                        }
+                        _ => self.pretty_body(binds.last().unwrap().span().end(), body),
+                    }
+                    .group()
                 ]
             }
 
@@ -524,6 +529,43 @@ where
 
     fn space(&self, span: Span<BytePos>) -> DocBuilder<'a, Arena<'a, A>, A> {
         self.whitespace(span, self.arena.line())
+    }
+
+    /// Prints the body of a `let`. The keyword `in` may stand between the bindings and the body;
+    /// nothing else prints it, so without handling it here the body would be glued to the
+    /// binding (`let x = 1 in x` became `let x = 1x`). The body is put on its own line instead.
+    fn pretty_body(
+        &self,
+        previous_end: BytePos,
+        body: &'a SpannedExpr<I>,
+    ) -> DocBuilder<'a, Arena<'a, A>, A>
+    where
+        A: Clone,
+    {
+        let arena = self.arena;
+        if previous_end == BytePos::default() || body.span.start() < previous_end {
+            return self.pretty_expr_(previous_end, body);
+        }
+        let gap = self
+            .source
+            .src_slice(Span::new(previous_end, body.span.start()));
+        match in_keyword(gap) {
+            Some(i) => {
+                let in_start = BytePos::from(previous_end.to_usize() as u32 + i as u32);
+                let in_end = BytePos::from(in_start.to_usize() as u32 + 2);
+                chain![
+                    arena,
+                    self.comments(Span::new(previous_end, in_start)),
+                    if gap[i + 2..].contains('\n') {
+                        arena.nil()
+                    } else {
+                        arena.hardline()
+                    },
+                    self.pretty_expr_(in_end, body)
+                ]
+            }
+            None => self.pretty_expr_(previous_end, body),
+        }
     }
 
     fn whitespace(
@@ -1173,4 +1215,29 @@ fn forced_new_line<Id>(expr: &SpannedExpr<Id>) -> bool {
         } => forced_new_line(lhs) || forced_new_line(rhs),
         _ => false,
     }
+}
+
+/// Finds the keyword `in` in the text between a binding and its body (which otherwise only holds
+/// whitespace and comments)
+fn in_keyword(gap: &str) -> Option<usize> {
+    let mut i = 0;
+    while i < gap.len() {
+        let rest = &gap[i..];
+        if rest.starts_with("//") {
+            i += rest.find('\n').unwrap_or(rest.len());
+        } else if rest.starts_with("/*") {
+            i += rest.find("*/").map(|j| j + 2).unwrap_or(rest.len());
+        } else if rest.starts_with("in")
+            && !rest[2..].starts_with(|c: char| c.is_alphanumeric() || c == '_' || c == '\'')
+        {
+            return Some(i);
+        } else {
+            let c = rest.chars().next().unwrap();
+            if !c.is_whitespace() {
+                return None;
+            }
+            i += c.len_utf8();
+        }
+    }
+    None
 }
